@@ -101,6 +101,40 @@ pub fn burst(seed: u64, idx: u64) -> Scenario {
     sc
 }
 
+/// files far larger than anything else in the workloads (sparse, up to beyond 2^32 bytes) and
+/// Range headers with up to 2300 specs: sums, casts and counters that only overflow at extreme
+/// values. Only short slices of the huge files are requested.
+pub fn extreme_sizes(seed: u64, idx: u64) -> Scenario {
+    let mut rng = rng_for(seed, "C04", "extreme_sizes", idx);
+    let mut sc = Scenario::base("C04", "extreme_sizes", idx);
+    sc.engine = Engine::System;
+    sc.sched = pick_sched(&mut rng);
+    sc.workers = rng.range(1, 2);
+    sc.request_size = 10000;
+    sc.yields = pick_yields(&mut rng);
+    let l: u64 = *rng.pick(&[1 << 20, (3 << 20) + 1, (1 << 31) - 1, 1 << 31, (1 << 32) + 4096]);
+    sc.tree = TreeSpec { root: "root".into(), entries: vec![Entry { path: "root/big.bin".into(), kind: EntryKind::File(Content::Sparse { len: l, seed: rng.next() }) }, Entry { path: "root/probe.txt".into(), kind: EntryKind::File(Content::Literal("probe\n".into())) }], mtime_mode: 0 };
+    for i in 0..rng.range(1, 3) {
+        let k = *rng.pick(&[1usize, 2, 3, 50, 600, 2300]);
+        let specs: Vec<String> = (0..k)
+            .map(|_| {
+                if k <= 3 {
+                    super::c02::narrow_spec(l, &mut rng)
+                } else {
+                    let a = rng.below(10);
+                    format!("{}-{}", a, a)
+                }
+            })
+            .collect();
+        let rv = format!("bytes={}", specs.join(","));
+        let method = if l < (1 << 30) && rng.chance(1, 5) { "HEAD" } else { "GET" };
+        let bytes = if l < (1 << 30) && rng.chance(1, 8) { req(method, "/big.bin", &[], b"") } else { req(method, "/big.bin", &[("Range", &rv)], b"") };
+        sc.conns.push(Conn::simple(i, i as u32, bytes, "range"));
+    }
+    sc.probe = Probe::FollowUp { request: probe_request().into() };
+    sc
+}
+
 pub fn plan(tier: Tier, seed: u64) -> Vec<Campaign> {
     let mk = |name: &'static str, quick: u64, weight: u32| Campaign {
         name,
@@ -130,6 +164,7 @@ pub fn plan(tier: Tier, seed: u64) -> Vec<Campaign> {
         exhaustive: false,
         gen: Box::new(move |i| burst(seed, i)),
     });
+    v.push(Campaign { name: "extreme_sizes", budget: Budget::Count(match tier { Tier::Quick => 96, Tier::Thorough => 1200 }), exhaustive: false, gen: Box::new(move |i| extreme_sizes(seed, i)) });
     v
 }
 
